@@ -165,12 +165,24 @@ pub(super) fn move_while_borrowed(
     // The following invariant MUST hold at all times: once we visit a node, we must have
     // already visited all the nodes that are connected with it by an outgoing edge (i.e.
     // all the nodes that depend on it).
-    // Any source node works as a starting point for our DfS.
-    let source_id = call_graph.externals(Direction::Incoming).next().unwrap();
-    let mut dfs = DfsPostOrder::new(&call_graph, source_id);
+    // A single source node is not enough as a starting point for our DfS: the graph usually
+    // has several sources and we must visit the nodes reachable from *any* of them.
+    let mut source_ids: Vec<_> = call_graph.externals(Direction::Incoming).collect();
+    source_ids.reverse();
+    let mut dfs = DfsPostOrder::empty(&call_graph);
     let mut node2borrows: HashMap<NodeIndex, IndexSet<NodeIndex>> = HashMap::new();
 
-    while let Some(node_index) = dfs.next(&call_graph) {
+    while let Some(node_index) = dfs.next(&call_graph).or_else(|| {
+        // We are done with the nodes reachable from the sources examined so far:
+        // restart from the next source, if there is one.
+        while let Some(source_id) = source_ids.pop() {
+            dfs.move_to(source_id);
+            if let Some(node_index) = dfs.next(&call_graph) {
+                return Some(node_index);
+            }
+        }
+        None
+    }) {
         let borrowed_later: IndexSet<NodeIndex> = call_graph
             .neighbors_directed(node_index, Direction::Outgoing)
             .fold(IndexSet::new(), |mut acc, neighbor_index| {
